@@ -251,6 +251,51 @@ def checkL2s (sc : Scope) : List S → List L2 → Option (List S)
     | some a => checkL2s sc a r
     | none => none
 
+/-! ### the same checker with Python's rule taken literally (`readOkPy`); `DW/Lemmas/GenDump.lean` shows the two agree on
+every body whose scope lists its written names as locals -/
+
+def Scope.readsOkPy (sc : Scope) (asg : List S) (ns : List S) : Bool := ns.all (sc.readOkPy asg)
+
+def checkSimplesPy (sc : Scope) : List S → List Simple → Option (List S)
+  | asg, [] => some asg
+  | asg, s :: r => if sc.readsOkPy asg s.reads then checkSimplesPy sc (s.writes ++ asg) r else none
+
+def checkL0sPy (sc : Scope) : List S → List L0 → Option (List S)
+  | asg, [] => some asg
+  | asg, l :: r => match checkSimplesPy sc asg l.parts with
+    | some a => checkL0sPy sc a r
+    | none => none
+
+def L1.checkPy (sc : Scope) (asg : List S) : L1 → Option (List S)
+  | .line l => checkSimplesPy sc asg l.parts
+  | .for_ ts it body =>
+      if sc.readsOkPy asg it.reads then
+        match checkL0sPy sc (ts ++ asg) body with
+        | some _ => some asg
+        | none => none
+      else none
+
+def checkL1sPy (sc : Scope) : List S → List L1 → Option (List S)
+  | asg, [] => some asg
+  | asg, l :: r => match l.checkPy sc asg with
+    | some a => checkL1sPy sc a r
+    | none => none
+
+def L2.checkPy (sc : Scope) (asg : List S) : L2 → Option (List S)
+  | .s x => x.checkPy sc asg
+  | .if_ c thn els =>
+      if sc.readsOkPy asg c.reads then
+        match checkL1sPy sc asg thn, (match els with | none => some asg | some e => checkL1sPy sc asg e) with
+        | some a, some b => some (a.filter b.contains)
+        | _, _ => none
+      else none
+
+def checkL2sPy (sc : Scope) : List S → List L2 → Option (List S)
+  | asg, [] => some asg
+  | asg, l :: r => match l.checkPy sc asg with
+    | some a => checkL2sPy sc a r
+    | none => none
+
 /-! ### the generator -/
 
 /-- a component of a JSON path (`split_object_path`): spliced as `[{p!r}]` -/
@@ -513,6 +558,10 @@ def wellScopedQ (printable : Char → Bool) (fix : Bool) (g : GIn) : Bool :=
   (checkL2s (genScopeQ printable fix g) params (genBody printable g)).isSome
 
 def wellScoped (printable : Char → Bool) (g : GIn) : Bool := wellScopedQ printable true g
+
+/-- is the generated function well scoped under Python's rule taken literally? -/
+def wellScopedPy (printable : Char → Bool) (g : GIn) : Bool :=
+  (checkL2sPy (genScope printable g) params (genBody printable g)).isSome
 
 /-- all names read / written anywhere (compared with Python's `symtable` analysis of the real source) -/
 def L0.allReads (l : L0) : List S := l.parts.flatMap Simple.reads
